@@ -53,18 +53,33 @@ ObsOf(N(_), r) == [inv |-> Invert(r), invinv |-> Invert(Invert(r)), norm |-> N(r
 
 AllRels(ts) == UNION { {ts[i].rels[j] : j \in 1..Len(ts[i].rels)} : i \in 1..Len(ts) }
 
-\* expected listing, as a set of unordered pairs {r, Invert(r)} (one-way: {r})
-Classes(ts) == { IF OneWay(r) THEN {r} ELSE {r, Invert(r)} : r \in AllRels(ts) }
+\* A pair is identified by its two ends (type and name on each side), whatever cardinalities the two
+\* declarations state (a coherent schema in the sense of Check may state them differently on the two
+\* sides): the key of a one-way relationship is the relationship's names, that of a pair the set of
+\* its two ends.
+NameKey(r) == IF OneWay(r) THEN {<<r.ft, r.fn, r.tt>>} ELSE {<<r.ft, r.fn>>, <<r.tt, r.tn>>}
+Classes(ts) == { NameKey(r) : r \in AllRels(ts) }
 
-\* listed: one observed result of Rels() (a sequence of rels)
+\* listed: one observed result of Rels() (a sequence of rels): one entry per class, each entry one of
+\* the declared relationships of the class or the inverse of one
 ListingOK(ts, listed) ==
     /\ Len(listed) = Cardinality(Classes(ts))
-    /\ \A c \in Classes(ts) : Cardinality({i \in 1..Len(listed) : listed[i] \in c}) = 1
+    /\ \A c \in Classes(ts) : Cardinality({i \in 1..Len(listed) : NameKey(listed[i]) = c}) = 1
+    /\ \A i \in 1..Len(listed) : \E r \in AllRels(ts) : listed[i] \in {r, Invert(r)}
 
 \* perms: the results of Rels() for every order of adding the types
+\* a class whose declarations agree (each is the other or its inverse) has one canonical
+\* representative; where the two sides state different cardinalities, which side's statement is
+\* listed is left open
+Mirrored(ts, c) == \A r \in AllRels(ts) : \A r2 \in AllRels(ts) :
+                      (NameKey(r) = c /\ NameKey(r2) = c) => r2 \in {r, Invert(r)}
 RelsOK(ts, perms) ==
     /\ \A p \in 1..Len(perms) : ListingOK(ts, perms[p])
-    /\ \A p, q \in 1..Len(perms) : perms[p] = perms[q]
+    /\ \A p, q \in 1..Len(perms) :
+          /\ Len(perms[p]) = Len(perms[q])
+          /\ \A i \in 1..Len(perms[p]) :
+                /\ NameKey(perms[p][i]) = NameKey(perms[q][i])       \* the same pairs in the same order
+                /\ Mirrored(ts, NameKey(perms[p][i])) => perms[p][i] = perms[q][i]
 
 \* the pinned code's deviations
 Dev_NormalizeByConcatenation(e) ==
